@@ -2,7 +2,7 @@
 from . import servefam
 from .c03 import TRUSTED
 
-THEOREMS = []
+THEOREMS = ["Goag.Serve.parseBlock_ok_iff", "Goag.Serve.parseBlock_values", "Goag.Serve.parseBlock_error", "Goag.Serve.parseValues_ok_iff"]
 FACETS = [("route", ["-params"], "params")]
 RULE = "specs = C03 corpus with query/header parameter declarations: type in {string, integer, int32, int64, boolean, number, float, date-time} x {scalar, array} x {query, header} x required/optional x {inline, schema $ref, component-parameter $ref} x {path-item level, operation level, overridden}; requests = routed paths with values drawn from per-type lexeme classes (canonical, boundary, out-of-range, garbage, empty) x cardinality {absent, one, many}; non-trivial = at least one declared parameter supplied; distinct by (package, method, path, query, headers, observation)"
 EXPLANATION = "inside every dispatched handler Parse() is called; the dumped Params (positional, canonical; floats by bits, times as instants) or the error (location, name, kind in {required, multiple, lexical}) is compared with the Lean model of new<Op>Params (parseBlock/parseValues over the merged declaration list) and with the reference (malformed iff required-and-absent, scalar-supplied-more-than-once, or a supplied value outside the type's lexical space; otherwise every field is the typed value of the supplied text and absent optionals are unset)"
@@ -13,4 +13,4 @@ ASSUMPTIONS = ["lexical space of a type = language of the Go parser it is bound 
 
 def check(ctx):
     return servefam.check_prop(ctx, "C04", ["GoagModel.Props.C04"], THEOREMS, FACETS, TRUSTED, rule=RULE,
-                               explanation=EXPLANATION, assumptions=ASSUMPTIONS, level="translation_validation")
+                               explanation=EXPLANATION, assumptions=ASSUMPTIONS, level="proof")
